@@ -55,106 +55,69 @@ REF_OK = {"leaf": {"leaf", "reserve"}, "reserve": {"reserve", "mutable-first"}, 
 
 
 def long_digits_rule(rep, T, cls, f, probe):
-    """TYPE_LONG: |n| 16-bit digits, digit j weighs 2**(15*j), result negated iff n < 0 -- the extracted count, update and result terms
-    are evaluated on small integers (the analysis's own terms, not repo code)"""
+    """TYPE_LONG: |n| 16-bit digits, digit j weighs 2**(15*j), result negated iff n < 0.  Decided independently of how the digit loop is written: the
+    reader is specialised with the size field bound to concrete values (the loop then unrolls, every digit read is its own symbol) and the result term
+    is evaluated on distinctive digits (the analysis's own terms, not repo code)."""
     from ..fold import Instance as _Inst
     from ..marshal_read import new_instance, robj_hook
-    from ..sve import Cont, Fall, Guard, Ret, Spec, eval_term, leaves
+    from ..sve import Guard, Ret, Spec, eval_term, leaves
     mg, passed, version = probe
-    sp = Spec(T.F, opaque_funcs={"to_portable"})
-    sp.hooks.append(robj_hook)
-    inst = new_instance(cls, passed, version)
-    out = sp.run(f, [inst, True, Sym("bytes_for_s", "bool")])
     FQ = f.qualname
     tag = "@%d.%d" % tuple(version[:2])
-    unp = [e for k, e in _flat(sp.effects) if k == "unpack"]
-    loops = [e.args[3] for e in sp.effects if e.kind == "loop"]
-    if len(loops) != 1 or len(unp) < 2:
-        rep.ob("R9", FQ, "long:digit-loop" + tag, False, expected="a size field and one loop reading 16-bit digits", derived=[len(unp), len(loops)])
-        return
-    ls = loops[0]
-    n_sym = None
-    for nme, v in ls.pre.items():
-        if isinstance(nme, str) and show(v).startswith("fld(") and "<i" in show(v):
-            n_sym = v
-    digits = [x for x in ls.effects if x.kind == "unpack"]
-    dsym = None
-    for g, l in leaves(ls.out):
-        if isinstance(l, (Fall, Cont)):
-            for nme, v in l.env.items():
-                if isinstance(nme, str) and show(v).startswith("fld(") and "h," in show(v).lower() and nme not in ls.pre:
-                    dsym = v
-    if n_sym is None or dsym is None or len(digits) != 1:
-        rep.ob("R9", FQ, "long:digit-loop" + tag, False, expected="size from '<i', one '<h' digit per iteration", derived=[show(n_sym), show(dsym), len(digits)])
-        return
-    rep.ob("R9", FQ, "long:digit-format" + tag, str(digits[0].args[0]) in ("<h", "<H"), expected="<h", derived=str(digits[0].args[0]))
-    # count
-    c = ls.cond
-    got = show(c)
-    okc = False
-    if isinstance(c, Op) and c.op == "iter-more" and isinstance(c.args[0], Op) and c.args[0].op == "range":
-        try:
-            got = [len(range(*[eval_term(a, {repr(n_sym): sv}) for a in c.args[0].args])) for sv in (-3, 1, 4)]
-            okc = got == [3, 1, 4]
-        except Exception as ex:
-            got = "not evaluable: %s" % ex
-    rep.ob("R9", FQ, "long:digit-count" + tag, okc, expected="|n| digits (n = -3, 1, 4 -> 3, 1, 4)", derived=got, msg="the number of digits read is not the absolute value of the size field")
-    # accumulation: the in-loop update of the accumulator (a plain int variable or the value of the int-like wrapper object)
-    idx = Sym("%s:idx" % ls.tag)
-    upd = None
-    head = None
-    for x in ls.effects:
-        if x.kind == "store-attr" and x.args[1] == "value" and repr(dsym) in repr(x.args[2]):
-            upd = x.args[2]
-    for g, l in leaves(ls.out):
-        if isinstance(l, (Fall, Cont)):
-            for nme, v in l.env.items():
-                if isinstance(nme, str) and nme in ls.pre and repr(dsym) in repr(v) and upd is None:
-                    upd = v
-    heads = [Sym("%s:%s" % (ls.tag, nme)) for nme in ls.pre if isinstance(nme, str)]
-    oka, gota = False, show(upd)
-    if upd is not None:
-        hs = [h for h in heads if repr(h) in repr(upd)]
-        if len(hs) == 1:
-            try:
-                vals = [eval_term(upd, {repr(dsym): dv, repr(idx): iv, repr(hs[0]): hv}) for dv, iv, hv in ((3, 2, 5), (0x7FFF, 0, 0), (1, 3, 1 << 44))]
-                oka = vals == [5 + (3 << 30), 0x7FFF, (1 << 44) + (1 << 45)]
-                gota = {"update": show(upd), "evaluated": vals}
-                head = hs[0]
-            except Exception as ex:
-                gota = "not evaluable: %s" % ex
-    rep.ob("R9", FQ, "long:accumulation" + tag, oka, expected="d' = d + (digit << 15*j)", derived=gota, msg="the digits of a TYPE_LONG are combined with the wrong weights")
-    # sign
-    oks, gots = False, None
-    if head is not None:
-        after = Sym("after-" + head.name)
 
-        def value_of(t, val):
-            if isinstance(t, Guard):
-                return value_of(t.a if eval_term(t.cond, val) else t.b, val)
-            if isinstance(t, _Inst):
-                last = None
-                for k, e in _flat(sp.effects):
-                    if k == "store-attr" and e.args[1] == "value" and not any(isinstance(g, Op) and g.op == "in-loop" for g in e.guards):
-                        if all(eval_term(g, val) for g in e.guards if "loop-exit" not in show(g)):
-                            last = e.args[2]
-                return eval_term(last, val) if last is not None else None
-            return eval_term(t, val)
+    def run_with(assume):
+        sp = Spec(T.F, opaque_funcs={"to_portable"}, assume=assume)
+        sp.hooks.append(robj_hook)
+        inst = new_instance(cls, passed, version)
+        out = sp.run(f, [inst, True, Sym("bytes_for_s", "bool")])
+        return sp, out
+    sp0, out0 = run_with({})
+    unp0 = [e for k, e in _flat(sp0.effects) if k == "unpack"]
+    if not unp0 or str(unp0[0].args[0]) not in ("<i", "<l"):
+        rep.ob("R9", FQ, "long:digit-loop" + tag, False, expected="a signed 32-bit size field read first", derived=[str(e.args[0]) for e in unp0[:2]])
+        return
+    n_repr = "fld(%s,%s,0)" % (show(unp0[0].args[3]), unp0[0].args[0])
+    DIG = [0x7FFF, 0x0001, 0x1234, 0x4000, 0x2AAA]
+    fmt_bad, cnt_bad, acc_bad, sign_bad = [], [], [], []
+    for size in (-5, -3, -1, 0, 1, 2, 4):
         try:
-            res = []
-            for sv in (-3, 2):
-                val = {repr(n_sym): sv, repr(after): 7}
-                r = None
-                for g, l in leaves(out):
-                    if isinstance(l, Ret) and all(eval_term(c_, val) for c_ in g if "loop-exit" not in show(c_)):
-                        r = value_of(l.value, val)
-                        break
-                res.append(r)
-            oks = res == [-7, 7]
-            gots = {"evaluated(n=-3, 2; magnitude 7)": res}
+            sp, out = run_with({n_repr: size})
         except Exception as ex:
-            gots = "not evaluable: %s" % ex
-    rep.ob("R9", FQ, "long:sign" + tag, oks, expected="-magnitude when n < 0, +magnitude otherwise", derived=gots, msg="the sign of a TYPE_LONG does not follow the sign of its size field")
+            cnt_bad.append("size %d: not evaluable (%s)" % (size, ex))
+            continue
+        unp = [e for k, e in _flat(sp.effects) if k == "unpack"][1:]
+        for e in unp:
+            if str(e.args[0]) not in ("<h", "<H"):
+                fmt_bad.append(str(e.args[0]))
+        if len(unp) != abs(size):
+            cnt_bad.append("size %d: %d digits read" % (size, len(unp)))
+            continue
+        rets = [l.value for g, l in leaves(out) if isinstance(l, Ret)]
+        if len(rets) != 1:
+            acc_bad.append("size %d: %d results" % (size, len(rets)))
+            continue
+        v = rets[0]
+        if isinstance(v, _Inst):
+            v = getattr(v, "prim", v.attrs.get("value"))
+        val = {"fld(%s,%s,0)" % (show(e.args[3]), e.args[0]): DIG[j] for j, e in enumerate(unp)}
+        try:
+            got = eval_term(v, val)
+        except Exception as ex:
+            acc_bad.append("size %d: result %s not evaluable (%s)" % (size, show(v)[:60], ex))
+            continue
+        mag = sum(DIG[j] << (15 * j) for j in range(abs(size)))
+        if not isinstance(got, int) or isinstance(got, bool) or abs(got) != mag:
+            acc_bad.append("size %d: %s -> %r, magnitude should be %d" % (size, show(v)[:60], got, mag))
+        elif got != (-mag if size < 0 else mag):
+            sign_bad.append("size %d: %r, expected %d" % (size, got, -mag if size < 0 else mag))
+    rep.ob("R9", FQ, "long:digit-format" + tag, not fmt_bad, expected="<h", derived=sorted(set(fmt_bad)) or "<h")
+    rep.ob("R9", FQ, "long:digit-count" + tag, not cnt_bad, expected="|n| digits for size fields -5, -3, -1, 0, 1, 2, 4", derived=cnt_bad[:3] or "equal",
+           msg="the number of digits read is not the absolute value of the size field: %s" % "; ".join(cnt_bad[:2]))
+    rep.ob("R9", FQ, "long:accumulation" + tag, not acc_bad and not cnt_bad, expected="magnitude = sum(digit_j << 15*j)", derived=acc_bad[:3] or ("equal" if not cnt_bad else "not evaluated"),
+           msg="the digits of a TYPE_LONG are combined with the wrong weights: %s" % "; ".join(acc_bad[:2]))
+    rep.ob("R9", FQ, "long:sign" + tag, not sign_bad and not acc_bad and not cnt_bad, expected="-magnitude when n < 0, +magnitude otherwise",
+           derived=sign_bad[:3] or ("equal" if not (acc_bad or cnt_bad) else "not evaluated"),
+           msg="the sign of a TYPE_LONG does not follow the sign of its size field: %s" % "; ".join(sign_bad[:2]))
 
 
 def _flat(effects):
